@@ -43,11 +43,20 @@ PickTwin ==
         /\ M' = Root(NS, <<>>, MapOf({Class([i \in 1..3 |-> IF i = 1 THEN TwinSrc[k] ELSE IF i = t THEN nm[k] ELSE "keep$" \o nm[k]], <<>>, <<>>) : k \in 1..6}))
         /\ q' = t
     /\ phase' = "case"
+(* target names with a character that stands for an unpaired surrogate (the projection turns U+E03D into the lone surrogate *)
+(* U+D83D and back): names are sequences of Java characters and are joined as such (seed C11-11)                          *)
+SurNames == {<<"a", "b", "c">>, <<"a", "bb", "c">>, <<"a", "b", "c">>, <<"p/", "", "">>}
+PickSur ==
+    /\ phase = "start"
+    /\ \E nm \in SurNames, t \in 2..3 :
+        /\ M' = Root(NS, <<>>, MapOf({Class([i \in 1..3 |-> IF i = 1 THEN TwinSrc[k] ELSE IF i = t THEN nm[k] ELSE "keep$" \o nm[k]], <<>>, <<>>) : k \in 1..3}))
+        /\ q' = t
+    /\ phase' = "case"
 PickName ==
     /\ phase = "start"
     /\ \E n \in NamePool : q' = n
     /\ phase' = "name" /\ UNCHANGED M
-Next == PickSet \/ PickNames \/ PickTwin \/ PickName
+Next == PickSet \/ PickNames \/ PickTwin \/ PickSur \/ PickName
 Spec == Init /\ [][Next]_vars
 
 InvExtend == phase = "case" => ExtendLaw(M, q)
